@@ -43,22 +43,22 @@ TOL = 1e-9
 
 
 @st.composite
-def _case(draw):
-    kind = draw(st.sampled_from(["exp_spline", "buck4_spline", "as.buck4"]))
+def _case(draw, force_origin=False):
+    kind = draw(st.sampled_from(["exp_spline", "buck4_spline"] if force_origin else ["exp_spline", "buck4_spline", "as.buck4"]))
     if kind == "as.buck4":
         p = list(draw(gen.form_params("buck4")))
         return {"kind": kind, "p": p, "extra_r": draw(st.lists(gen.fl(0.05, 6.0), min_size=2, max_size=4)),
                 "companion": draw(st.sampled_from([0, 1, 1, 2]))}
     a = draw(gen.form_leaf(gen.SMOOTH))
     b = draw(gen.form_leaf(gen.SMOOTH))
-    ints = draw(st.integers(0, 3)) == 0
+    ints = (not force_origin) and draw(st.integers(0, 3)) == 0
     if ints:
         detach, rmin_i, attach = draw(st.sampled_from(gen.INT_BREAKS))     # typed as whole numbers (Python ints)
     else:
         detach = round(draw(gen.fl(0.3, 2.0)), 3)
         attach = round(detach + draw(gen.fl(0.3, 2.5)), 3)
     origin = False
-    if not ints and draw(st.integers(0, 7)) == 0:
+    if force_origin or (not ints and draw(st.integers(0, 7)) == 0):
         # detachment point exactly at the origin, start potential regular there and defined from below 0
         origin = True
         a = draw(gen.form_leaf(["bornmayer", "morse", "polynomial", "constant"]))
@@ -102,7 +102,9 @@ def strategy(tier):
 
 
 def strata(tier):
-    return [("built-in end potentials", _case(), 9), ("formula end potentials", _custom_end_case(), 1)]
+    # the detachment point at the origin has a stratum of its own: left to chance (1 case in 16) some seeds never drew it
+    return [("built-in end potentials", _case(), 9), ("formula end potentials", _custom_end_case(), 1),
+            ("detach_at_origin", _case(force_origin=True), 0.7)]
 
 
 def budget(tier):
